@@ -11,6 +11,8 @@ from hypothesis import strategies as st
 from .. import gen
 from ..ref import binary as B
 from ..ref import logical as RL
+from ..ref import container as RC
+from fastavro.validation import validate
 from ..runner import Check, Violation, guard, outcome, HarnessError
 
 UTC = dt.timezone.utc
@@ -98,7 +100,7 @@ class C16(Check):
         "a decimal written with more digits than the precision only because of trailing zeros (1.2300 for precision 3) may be refused or stored; both are accepted",
     ]
     required_labels = ["enum:date", "enum:time-millis", "enum:time-micros", "gen:timestamp-aware", "gen:timestamp-naive", "gen:local-timestamp", "gen:uuid",
-                       "dec:fixed", "dec:bytes", "dec:must-raise", "dec:negative", "dec:negative-zero", "dec:positive-exponent", "dec:roundtrip", "pre-epoch", "offset:nonzero", "wrapped:record", "wrapped:array", "wrapped:union", "wrapped:map"]
+                       "dec:fixed", "dec:bytes", "dec:must-raise", "dec:negative", "dec:negative-zero", "dec:positive-exponent", "dec:roundtrip", "pre-epoch", "offset:nonzero", "wrapped:record", "wrapped:array", "wrapped:union", "wrapped:map", "dec:sign-extended-read", "paths:container+validate+json"]
     quick = (2500, 4)
     thorough = (20000, 16)
     exhaustive = False
@@ -380,6 +382,27 @@ class C16(Check):
             gotw = unwrap(back)
             if gotw != exp or type(gotw) is not type(exp):
                 raise Violation("logical-roundtrip:" + lt + ":" + wrap, f"wrote {v!r} nested in {wrap}, read {gotw!r}, expected {exp!r}")
+            if wrap == "record":
+                # the other entry points convert the same way: container file, validation, JSON
+                labels.add("paths:container+validate+json")
+                cfo = io.BytesIO()
+                guard("logical-write:" + lt, fastavro.writer, cfo, ws, [datum, datum], sync_marker=b"\x07" * 16)
+                pf = RC.parse(cfo.getvalue())
+                payload = b"".join(b["data"] for b in pf["blocks"])
+                if payload != wantw * 2:
+                    raise Violation("logical-representation:" + lt + ":container", f"{v!r} stored in a container block as {payload.hex()}, specification gives {(wantw * 2).hex()}")
+                cfo.seek(0)
+                backc = guard("logical-read:" + lt, lambda: list(fastavro.reader(cfo)))
+                if len(backc) != 2 or any(unwrap(r) != exp or type(unwrap(r)) is not type(exp) for r in backc):
+                    raise Violation("logical-roundtrip:" + lt + ":container", f"wrote {v!r}, container reader returned {backc!r:.200}, expected {exp!r}")
+                ok = guard("logical-validate:" + lt, validate, datum, ws, raise_errors=False)
+                if ok is not True:
+                    raise Violation("logical-validate:" + lt, f"validate({datum!r:.120}) = {ok!r} for a value the writer stores")
+                so = io.StringIO()
+                guard("logical-json-write:" + lt, fastavro.json_writer, so, ws, [datum])
+                backj = guard("logical-json-read:" + lt, lambda: list(fastavro.json_reader(io.StringIO(so.getvalue()), ws)))
+                if len(backj) != 1 or unwrap(backj[0]) != exp or type(unwrap(backj[0])) is not type(exp):
+                    raise Violation("logical-roundtrip:" + lt + ":json", f"wrote {v!r} as JSON {so.getvalue()!r:.120}, read back {backj!r:.200}, expected {exp!r}")
         fo = io.BytesIO()
         guard("logical-write:" + lt, fastavro.schemaless_writer, fo, schema, v)
         blob = fo.getvalue()
@@ -447,6 +470,18 @@ class C16(Check):
             if clearly_ok or len(str(abs(unscaled))) <= prec:
                 raise Violation("decimal-roundtrip:" + under, f"{ctx} read back as {got!r}")
         labels.add("dec:roundtrip")
+        if under == "bytes" and (clearly_ok or len(str(abs(unscaled))) <= prec):
+            # a two's-complement integer may carry redundant sign bytes (writers other than fastavro emit them): the
+            # same number must be read
+            n, pos = B.dec_long(blob, 0)
+            raw = blob[pos:]
+            pad = (b"\xff" if unscaled < 0 else b"\x00") * 2
+            out = bytearray()
+            B.enc_long(len(raw) + 2, out)
+            got2 = guard("logical-read:decimal", fastavro.schemaless_reader, io.BytesIO(bytes(out) + pad + raw), schema)
+            labels.add("dec:sign-extended-read")
+            if not isinstance(got2, D) or got2 != v:
+                raise Violation("decimal-sign-extended-read", f"{ctx}: the encoding with two redundant sign bytes reads as {got2!r}")
         return labels
 
     def _decode_dec(self, blob, under, size, scale):
